@@ -462,6 +462,9 @@ func modelForeign(t *testing.T) {
 						if st.IsDir() != isDir {
 							t.Errorf("FAILING-INPUT: %s: %s: Stat(%q) says dir=%v", label, stage, sp, st.IsDir())
 						}
+						if !isDir && st.Size() != int64(len(data)) {
+							t.Errorf("FAILING-INPUT: %s: %s: Stat(%q) reports %d bytes, the member has %d", label, stage, sp, st.Size(), len(data))
+						}
 						if !isDir {
 							f, err := fs.Open(sp)
 							if err != nil {
